@@ -198,7 +198,10 @@ def consumer_check(db, e, low, high, rng, viols, counters):
                     if o[1].get(k) != v and not (depth == 0 and k in o[1]):
                         fail('imsi-info-misses-property', 'imsi.info(%r) lacks %s=%r (got %r)' % (number, k, v, o[1].get(k)))
                         break
-            return 1
+            ov = C.outcome(imsi.validate, number)
+            if ov[0] != 'ok':
+                fail('imsi-validate-rejects-entry', 'imsi.validate(%r) (%s) does not accept a number of a registered network' % (number, ov[1]))
+            return 2
         if db == 'oui' and 'o' in props:
             from stdnum import mac
             prefix, d = path_prefix(e, rng)
@@ -210,6 +213,17 @@ def consumer_check(db, e, low, high, rng, viols, counters):
                 fail('oui-manufacturer-lookup-fails', 'mac.get_manufacturer(%r): %s' % (number, o[1:3]))
             elif o[1] != props['o'].replace('%', '"'):
                 fail('oui-manufacturer-differs', 'mac.get_manufacturer(%r) = %r, entry says %r' % (number, o[1], props['o']))
+            # the validator under its documented option: every address of a registered block is accepted (all blocks
+            # with the multicast or locally-administered bit set, one in sixteen of the others)
+            special = int(hexs[1], 16) & 3
+            if special or e.lineno % 16 == 0:
+                for opt in (True, None):
+                    ov = C.outcome(mac.validate, number, validate_manufacturer=opt)
+                    if ov[0] != 'ok':
+                        fail('oui-validate-rejects-entry', 'mac.validate(%r, validate_manufacturer=%r) (%s) rejects an address of a registered block' % (number, opt, ov[1]))
+                        break
+                counters['oui_validate_with_option'] = counters.get('oui_validate_with_option', 0) + 1
+                return 3
             return 1
         simple = {
             'at/fa': ('at.tin', 'info', lambda v: (v + '0' * 9)[:9]),
@@ -244,6 +258,18 @@ def consumer_check(db, e, low, high, rng, viols, counters):
                 number = build(val) if depth == 0 else None
             if number is None:
                 return 0
+            if db == 'nz/banks':
+                # some account of the branch must validate (the check digit rule depends on the bank: search)
+                found = False
+                tries = 0
+                for base in range(0, 400):
+                    cand = val[:6] + '%07d' % ((base * 7919 + 13) % 10000000) + '000'
+                    tries += 1
+                    if C.outcome(mod.validate, cand)[0] == 'ok':
+                        found = True
+                        break
+                if not found:
+                    fail('validate-rejects-every-account-of-branch', 'nz.bankaccount.validate() accepted none of %d accounts of the registered branch %s-%s' % (tries, val[:2], val[2:6]))
             o = C.outcome(getattr(mod, fname), number)
             counters['consumer_witnesses'] += 1
             if o[0] == 'exc':
